@@ -171,13 +171,14 @@ Definition mon_tickers (sp' : spec) (o : obs) : bool :=
   && nodupb N.eqb (map fst (o_groups o))
   && (o_tickers o =? N.of_nat (length (spec_periods sp'))).
 
-(* one event: [sp] = spec before, [spec_step sp e] after.  Once closed nothing happens any more. *)
+(* one event: [sp] = spec before, [spec_step sp e] after.  Once closed nothing happens any more - in particular a post
+   after Close must not fault (it is dropped). *)
 Definition mon_event (sp : spec) (e : event) (o : obs) : bool :=
   if sopen sp then
     negb (o_fault o) && mon_tick_exact sp e o && mon_deliver sp e o && mon_tickers (spec_step sp e) o
   else
     match o_queries o, o_notifies o, o_groups o with
-    | [], [], [] => o_tickers o =? 0
+    | [], [], [] => (o_tickers o =? 0) && negb (o_fault o)
     | _, _, _ => false
     end.
 
